@@ -224,6 +224,14 @@ class Ctx(object):
         for k, v in d.items():
             tgt[k] = tgt.get(k, 0) + v
 
+    def cannot_judge(self, message):
+        """Too many workloads failed before their oracle could run.  Never a pass: exit 2 - unless violations were already
+        recorded in this run, which are then reported (exit 1) with the shortfall noted as a probe."""
+        if self.violations:
+            self.probe("workloads_not_judged: " + message[:120])
+            return
+        raise HarnessError(message)
+
     # -- violations
     def violation(self, key, detail, replay):
         """key: dict identifying the violation class; replay: JSON-able object that reproduces it."""
